@@ -80,7 +80,7 @@ def _imm(T, v):
 def cases_utils(tier):
     for n in (1, 2, 3) + ((4, 5) if tier == "thorough" else ()):
         yield "normalize/n%d" % n, {"what": "normalize", "n": n}
-    for n, size in ((1, 1), (1, 3), (3, 3), (2, 3), (1, 0)):
+    for n, size in ((1, 1), (1, 3), (3, 3), (2, 3), (1, 0), (2, 4), (4, 4), (2, 6), (3, 6), (5, 6), (7, 6), (4, 2), (12, 12)):
         yield "broadcast_1d/n%d-size%d" % (n, size), {"what": "broadcast_1d", "n": n, "size": size}
     yield "immutable_array", {"what": "immutable_array"}
     yield "broadcast_arrays", {"what": "broadcast_arrays"}
@@ -208,13 +208,19 @@ def cases_validators(tier):
         yield "linear/inverted=%s" % bad, {"v": "linear", "bad": bad}
         yield "linear/inverted=%s/both-bounds-given-once-for-two-rows" % bad, {"v": "linear", "bad": bad, "both_scalar": True}
     for tr in (False, True):
-        for cols in (2, 3):
+        for cols in (1, 2, 3):  # (one column for two variables: would broadcast against a per-variable transform)
             yield "linear-transformation/transform=%s/columns=%d" % (tr, cols), {"v": "linear-apply", "tr": tr, "cols": cols}
     for pms in (None, 1, 9):
         yield "gradient/perturbation_min_success=%s" % pms, {"v": "gradient-min", "pms": pms}
     for ptypes in ([1, 1], [2, 1], [2, 2]):
         for tr in (False, True):
             yield "gradient/fix_perturbations/%s/transform=%s" % (ptypes, tr), {"v": "gradient-fix", "ptypes": ptypes, "tr": tr}
+    # per-variable perturbation settings of every length from one to one more than the number of variables (4, 5 and 6 variables:
+    # lengths that divide the number of variables, lengths in between): accepted exactly when 1 or the number of variables
+    for n in (4, 5) + ((6,) if tier == "thorough" else ()):
+        for field in ("perturbation_magnitudes", "perturbation_types", "boundary_types"):
+            for L in range(1, n + 2):
+                yield "gradient/fix_perturbations/%d-variables/%s-of-length-%d" % (n, field, L), {"v": "gradient-fix", "ptypes": [1], "tr": False, "n": n, "field": field, "L": L}
     for method in ("slsqp", "scipy/slsqp", "/slsqp", "scipy/"):
         yield "optimizer/method=%s" % method, {"v": "optimizer", "method": method}
     for lin in (False, True):
@@ -261,7 +267,6 @@ def scn_validators(T, case):
         T.prove("C18.realizations.weight_ratios_preserved", T.all([(T.same if T.symbolic else T.close)(me.weights[i] * S, w[i]) for i in range(3)]))
         want = 3 if case["ms"] is None or case["ms"] > 3 else case["ms"]
         T.prove("C18.realizations.min_success_clamped_to_ensemble_size", me.realization_min_success == want)
-        T.prove("C18.realizations.min_success_is_a_plain_integer", type(me.realization_min_success) is int, repr(type(me.realization_min_success)))
         frozen_ok(T, "C18.realizations", me)
     elif v == "objectives":
         cls = _cls(T, sh, "_objective_functions_config", "ObjectiveFunctionsConfig")
@@ -337,7 +342,7 @@ def scn_validators(T, case):
         if T.symbolic:
             sh.ns[CFG + "_linear_constraints_config"]["LinearConstraintsConfig"] = types.SimpleNamespace(model_construct=construct)
         variables = types.SimpleNamespace(initial_values=np.zeros(2))
-        tr = types.SimpleNamespace(variables=_Scaler(T, case["cols"])) if case["tr"] else None
+        tr = types.SimpleNamespace(variables=_Scaler(T, 2 if case["cols"] == 1 else case["cols"])) if case["tr"] else None
         try:
             if T.symbolic:
                 out = cls.apply_transformation(me, variables, tr)
@@ -370,9 +375,9 @@ def scn_validators(T, case):
         frozen_ok(T, "C18.gradient", me)
     elif v == "gradient-fix":
         cls = _cls(T, sh, "_gradient_config", "GradientConfig")
-        n = 2
-        lb, ub = T.real("lb", (n,)), T.real("ub", (n,))
-        T.assume(T.all(lb <= ub))
+        n = case.get("n", 2)
+        lb = T.real("lb", (n,))
+        ub = T.real("ub", (n,), ge=lb)
         m = T.real("magnitudes", (1,), lo=0.0)
         variables = types.SimpleNamespace(initial_values=np.zeros(n), lower_bounds=lb, upper_bounds=ub, mask=None, types=None)
 
@@ -393,6 +398,29 @@ def scn_validators(T, case):
             return me
 
         tr = types.SimpleNamespace(variables=_Scaler(T, n)) if case["tr"] else None
+        if case.get("field"):
+            field, L = case["field"], case["L"]
+            mags = T.real("magnitudes_given", (L,), lo=0.0) if field == "perturbation_magnitudes" else m
+            pt = [1 + (i % 2) for i in range(L)] if field == "perturbation_types" else [1]
+            bt = [1 + (i % 3) for i in range(L)] if field == "boundary_types" else [3]
+            try:
+                out = cls.fix_perturbations(mk(mags, pt, bt), variables, None)
+            except ValueError:
+                T.prove("C18.gradient.fix_perturbations.rejects_only_lengths_other_than_one_and_the_number_of_variables", L not in (1, n))
+                return
+            T.prove("C18.gradient.fix_perturbations.lengths_other_than_one_and_the_number_of_variables_are_rejected", L in (1, n))
+            for k, a in out.arrays().items():
+                T.prove("C18.gradient.fix_perturbations.arrays_have_full_length", tuple(a.shape) == (n,), k)
+            if field == "boundary_types":
+                T.prove("C18.gradient.fix_perturbations.entry_i_is_the_setting_given_for_variable_i", [int(t) for t in out.boundary_types] == [bt[i if L == n else 0] for i in range(n)])
+            if field == "perturbation_types":
+                # type 2 (relative) for variable i: the magnitude becomes that fraction of the range of variable i; type 1 (absolute): unchanged
+                rel = [pt[i if L == n else 0] == 2 for i in range(n)]
+                T.prove("C18.gradient.fix_perturbations.entry_i_is_the_setting_given_for_variable_i",
+                        T.all([T.same(out.perturbation_magnitudes[i], m[0] * (ub[i] - lb[i]) if rel[i] else m[0]) for i in range(n)]))
+            if field == "perturbation_magnitudes":
+                T.prove("C18.gradient.fix_perturbations.entry_i_is_the_setting_given_for_variable_i", T.all([T.same(out.perturbation_magnitudes[i], mags[i if L == n else 0]) for i in range(n)]))
+            return
         given = mk(m, case["ptypes"], [3])
         given0 = {k: getattr(given, k) for k in ("perturbation_magnitudes", "perturbation_types", "boundary_types")}
         first = cls.fix_perturbations(given, variables, tr)
@@ -590,10 +618,28 @@ def scn_native(T, case):
     T.prove("C18.native.revalidating_the_json_form_is_idempotent", _equal(EnOptConfig.model_validate(json.loads(json.dumps(dumped, cls=Enc))), cfg))
 
 
+# ------------------------------------------------------------------------------------ canonical perturbation settings (values), with and without a variable transform
+def cases_canonical_perturbations(tier):
+    from contracts import C10
+
+    return C10.cases_fix(tier)
+
+
+def scn_canonical_perturbations(T, case):
+    """'Canonical perturbation settings of every type': an absolute magnitude stays what the user gave (in optimizer coordinates under a
+    variable transform), a relative one becomes that fraction of the variable's range - once, whatever the transform (C10's scenario
+    of fix_perturbations under this property's prefix)."""
+    from contracts import C10
+    from contracts.reuse import Renamed
+
+    C10.scn_fix(Renamed(T, "C10.", "C18.canonical."), case)
+
+
 SCENARIOS = [
     Scenario("config_utils", scn_utils, cases_utils, {"quick": 10, "thorough": 100}),
     Scenario("validators", scn_validators, cases_validators, {"quick": 5, "thorough": 50}),
     Scenario("native_attack_and_revalidation", scn_native, cases_native, {"quick": 4, "thorough": 25}),
+    Scenario("canonical_perturbation_settings", scn_canonical_perturbations, cases_canonical_perturbations, {"quick": 5, "thorough": 50}),
 ]
 
 MANIFEST = {
